@@ -4,6 +4,7 @@ package c12
 import (
 	"bytes"
 	"fmt"
+	"strings"
 	"testing"
 
 	"github.com/TimothyStiles/poly/seqhash"
@@ -22,6 +23,11 @@ type Case struct {
 	Fill   uint64 `json:"fill"`    // fill: filler value
 	Alpha  string `json:"alpha"`   // fill: alphabet
 	Rots   []int  `json:"rots"`    // rotation offsets (mod length) for the metamorphic clause
+	// runs: Runs[i] copies of Unit[0] (the smallest letter), each followed by Gaps[i] filler letters over Alpha
+	// (which does not contain Unit[0]); the whole is then rotated by Origin, so that a run can straddle the origin.
+	Runs   []int `json:"runs,omitempty"`
+	Gaps   []int `json:"gaps,omitempty"`
+	Origin int   `json:"origin,omitempty"`
 }
 
 func (c Case) Bytes() []byte {
@@ -62,6 +68,19 @@ func (c Case) Bytes() []byte {
 		return b
 	case "fill":
 		return []byte(vk.Fill(c.Fill, c.Reps, c.Alpha))
+	case "runs":
+		var b []byte
+		for i, r := range c.Runs {
+			b = append(b, bytes.Repeat(c.Unit[:1], r)...)
+			if i < len(c.Gaps) && c.Gaps[i] > 0 {
+				b = append(b, vk.Fill(c.Fill+uint64(i), c.Gaps[i], c.Alpha)...)
+			}
+		}
+		if n := len(b); n > 0 {
+			k := ((c.Origin % n) + n) % n
+			b = append(b[k:len(b):len(b)], b[:k]...)
+		}
+		return b
 	}
 	return nil
 }
@@ -207,7 +226,7 @@ func genStructured(t *rapid.T) Case {
 			return rapid.IntRange(0, 1<<30).Draw(t, "mut_pos")
 		}
 	}
-	c := Case{Kind: rapid.SampledFrom([]string{"literal", "power", "nearpower", "nearpower", "periodic", "nearperiodic", "nearperiodic", "fibonacci", "thuemorse", "fill"}).Draw(t, "kind")}
+	c := Case{Kind: rapid.SampledFrom([]string{"literal", "power", "nearpower", "nearpower", "periodic", "nearperiodic", "nearperiodic", "fibonacci", "thuemorse", "fill", "runs", "runs"}).Draw(t, "kind")}
 	switch c.Kind {
 	case "literal":
 		c.Unit = unit("lit", 0, 40)
@@ -230,6 +249,37 @@ func genStructured(t *rapid.T) Case {
 		c.Fill = rapid.Uint64().Draw(t, "fill")
 		c.Alpha = alpha
 		c.Reps = length()
+	case "runs":
+		// runs of the smallest letter whose lengths tie, separated by filler without that letter, stored with the
+		// origin inside a run: the candidates a least-rotation search has to tell apart by what follows the runs
+		letters := []byte(alpha)
+		min := letters[0]
+		for _, x := range letters {
+			if x < min {
+				min = x
+			}
+		}
+		c.Unit = []byte{min}
+		c.Alpha = strings.ReplaceAll(alpha, string(min), "")
+		c.Fill = rapid.Uint64().Draw(t, "fill")
+		base := rapid.IntRange(1, 9).Draw(t, "run_base")
+		k := rapid.IntRange(2, 5).Draw(t, "n_runs")
+		for i := 0; i < k; i++ {
+			c.Runs = append(c.Runs, max(1, base+rapid.IntRange(-1, 0).Draw(t, "run_delta")))
+			g := rapid.IntRange(1, 12).Draw(t, "gap")
+			if rapid.IntRange(0, 5).Draw(t, "long_gap") == 0 {
+				g = vk.DrawSize(t, "gap_long", 100, 9000)
+			}
+			c.Gaps = append(c.Gaps, g)
+		}
+		switch rapid.IntRange(0, 2).Draw(t, "origin_where") {
+		case 0:
+			c.Origin = rapid.IntRange(0, c.Runs[0]).Draw(t, "origin_in_first_run")
+		case 1:
+			c.Origin = 0
+		default:
+			c.Origin = rapid.IntRange(0, 1<<30).Draw(t, "origin")
+		}
 	}
 	c.Rots = rapid.SliceOfN(rapid.IntRange(0, 1<<30), 1, 4).Draw(t, "rots")
 	return c
@@ -265,6 +315,14 @@ func TestSub_edges(t *testing.T) {
 			for _, p := range positions(L) {
 				for _, v := range []byte{'A', 'T'} {
 					cases = append(cases, Case{Kind: "nearperiodic", Unit: []byte("CG"), Reps: L, MutPos: p, MutVal: v})
+				}
+			}
+			// two equally long runs of the smallest letter, one of them straddling the origin, with the fillers in either order
+			if L >= 40 {
+				g := (L - 12) / 2
+				for _, fill := range []uint64{1, 2} {
+					cases = append(cases, Case{Kind: "runs", Unit: []byte("A"), Alpha: "CGT", Fill: fill + uint64(L), Runs: []int{6, 6}, Gaps: []int{g, L - 12 - g}, Origin: 3},
+						Case{Kind: "runs", Unit: []byte("A"), Alpha: "CGT", Fill: fill + uint64(L), Runs: []int{6, 6}, Gaps: []int{g, L - 12 - g}, Origin: 3 + 6 + g})
 				}
 			}
 			for _, c := range cases {
